@@ -371,6 +371,18 @@ func (e *Env) call(x *ast.CallExpr) Val {
 		}
 	}
 	switch fname {
+	case "closureof":
+		// closureof(v, "F$1"): v is (on this path) the function value made from that function literal
+		v := e.tr(x.Args[0])
+		lit, ok := x.Args[1].(*ast.BasicLit)
+		if !ok {
+			e.fail("closureof(value, \"name\")")
+		}
+		want := strings.Trim(lit.Value, "\"`")
+		if cl, ok := v.M.(*Closure); ok && cl.Fn != nil && strings.HasSuffix(eng.fnKey(cl.Fn), "."+want) {
+			return Val{T: "true", S: SBool}
+		}
+		return Val{T: "false", S: SBool}
 	case "mapval":
 		// the stored value, not gated by membership (use together with dom())
 		m := e.tr(x.Args[0])
